@@ -22,6 +22,7 @@ pub const CHECKS: &[CheckDef] = &[
     CheckDef { id: "C03", quick_runs: 3000, thorough_runs: 80_000, level: "exploration", title: "every explored execution is RC11-consistent" },
     CheckDef { id: "C04", quick_runs: 6000, thorough_runs: 150_000, level: "exploration", title: "data races are reported exactly" },
     CheckDef { id: "C05", quick_runs: 20000, thorough_runs: 150_000, level: "exploration", title: "deadlocks are reported exactly" },
+    CheckDef { id: "C06", quick_runs: 1200, thorough_runs: 60_000, level: "fault_enumeration", title: "a failure in any execution fails the model, and only then" },
     CheckDef { id: "C07", quick_runs: 10000, thorough_runs: 150_000, level: "exploration", title: "Mutex/RwLock exclusion, blocking, hand-over" },
     CheckDef { id: "C08", quick_runs: 15000, thorough_runs: 150_000, level: "exploration", title: "waiting primitives wake exactly on notification" },
     CheckDef { id: "C09", quick_runs: 15000, thorough_runs: 150_000, level: "exploration", title: "mpsc: once, in order, with ordering" },
@@ -78,6 +79,27 @@ pub fn generate(check: &str, tier: &str, seed: u64, run: u64) -> Case {
             let pr = sync_profile(&mut rng, "chan");
             gen_sync(&mut rng, &pr)
         }
+        "C06" => {
+            config.iter_cap = 3000;
+            match rng.below(7) {
+                0 => gen_litmus_any(&mut rng, false),
+                1 => {
+                    let pr = sync_profile(&mut rng, "lock");
+                    gen_sync(&mut rng, &pr)
+                }
+                2 => {
+                    let pr = sync_profile(&mut rng, "wait");
+                    gen_sync(&mut rng, &pr)
+                }
+                3 => gen_arc(&mut rng, false),
+                4 => gen_arc(&mut rng, true),
+                5 => gen_race(&mut rng),
+                _ => {
+                    let pr = sync_profile(&mut rng, "");
+                    gen_sync(&mut rng, &pr)
+                }
+            }
+        }
         "C10" => gen_arc(&mut rng, true),
         "C11" => gen_arc(&mut rng, false),
         "C14" => match rng.below(4) {
@@ -117,6 +139,9 @@ pub fn judge(check: &str, tier: &str, case: &Case, seed: u64, run: u64) -> CaseR
         opts.walk_cap = 4096;
     }
     let leak = FailClass::Leak(String::new());
+    if check == "C06" {
+        return crate::fault::run_c06_case(&case.program, &case.config, if thorough { 600 } else { 150 });
+    }
     match check {
         "C01" => {
             let mut m = MachineCfg::must();
@@ -301,6 +326,26 @@ pub fn witnesses(check: &str) -> Vec<(&'static str, Program, &'static str)> {
             vec![Op::RLock { l: 0 }, Op::RUnlock { l: 0 }],
         ];
         v.push(("K6-ops-without-scheduling-point", p, "missing_outcome"));
+    }
+    if check == "C07" {
+        // K7: a lock taken by a destructor during the unwinding of a caught panic blocks; the
+        // other threads then see panicking()==true and poison loom's inner std mutex
+        let mut p = Program { atomics: vec![0, 0], n_mutex: 1, ..Default::default() };
+        p.threads = vec![
+            vec![
+                Op::Spawn { t: 1 },
+                Op::Spawn { t: 2 },
+                Op::Lock { m: 0 },
+                Op::Store { a: 0, v: 16, o: MO::Sc },
+                Op::Store { a: 0, v: 32, o: MO::Sc },
+                Op::Unlock { m: 0 },
+                Op::Join { t: 1 },
+                Op::Join { t: 2 },
+            ],
+            vec![Op::Load { a: 1, o: MO::Sc }, Op::Lock { m: 0 }, Op::Load { a: 0, o: MO::Sc }, Op::FetchAdd { a: 1, v: 1, o: MO::Sc }, Op::Unlock { m: 0 }],
+            vec![Op::UnwindLock { m: 0 }],
+        ];
+        v.push(("K7-panicking-flag-shared-by-modeled-threads", p, "internal"));
     }
     if check == "C04" {
         // the race exists when T2 (fence, then write) runs before T1 (write, then fence); loom only
